@@ -14,6 +14,8 @@ H = {
     'cpp-realtrng': dict(name='cpp-realtrng', sources=['h_cpp.cpp', 'getrandom_tape.c'], cxx=True),
     'sym': dict(name='sym', sources=['h_sym.c']),
     'wipe': dict(name='wipe', sources=['h_wipe.cpp', 'trng_tape.c'], cxx=True, extra_flags=['-O3']),
+    'mt': dict(name='mt', sources=['h_mt.c'], libs=['-lpthread']),
+    'ct': dict(name='ct', sources=['h_ct.c'], extra_flags=['-O1']),
     'prng': dict(name='prng', sources=['h_prng.c']),
     'hex': dict(name='hex', sources=['h_hex.cpp'], cxx=True),
     'bytearray': dict(name='bytearray', sources=['h_bytearray.cpp', core.REPO + '/src/cplusplus/ascon-byte-array.cpp', core.REPO + '/src/cplusplus/ascon-aead-cpp.cpp'], cxx=True, extra_flags=['-DASCON_NO_STL']),
